@@ -8,6 +8,8 @@
 (*   C17  every answer is a function of (configuration, history): any two  *)
 (*        last() answers of the behaviour with the same pair are           *)
 (*        bit-identical (twins, repeated last(), clones, non-interference) *)
+(*        and a second execution of the same program in another process,   *)
+(*        thread and order gives the same answers (field res2)             *)
 (*   C15  no operation panicked                                            *)
 (***************************************************************************)
 EXTENDS Obs, Tally, Json, IOUtils, TLC
@@ -50,9 +52,14 @@ Report(clause) == /\ Tally("viol")
                   /\ \/ ~TallyUpTo("print." \o clause, 40)
                      \/ PrintT(<<"VIOL", Prop, clause, l>>)
 
+(* the same program executed a second time, in another process, after other programs and on a thread it shares with them:
+   the recorded answers are the same, operation by operation, bit for bit *)
+Repeatable(e) == "res2" \notin DOMAIN e \/ (Tally("repeated") /\ e.res = e.res2)
+
 Verdict == \/ l > Len(Rec)
            \/ LET j == Judge(Rec[l]) IN
               /\ Tally("programs")
+              /\ (Prop # "C17" \/ Repeatable(Rec[l]) \/ Report("answer-depends-on-other-instances-or-earlier-programs"))
               /\ Tally("answers." \o ToString(Len(j[2])))
               /\ (Prop # "C17" \/ j[3] \/ Report("answer-not-a-function-of-config-and-history"))
               /\ (Prop # "C15" \/ j[4] \/ Report("panic"))
